@@ -27,10 +27,11 @@ with a blank and free of digits):
 * witnesses where the REAL regexes lose a well-formed literal (not demanded by the check's contract, see
   harness/corr/c03.py `demanded`): `de_plain_decimal_split_witness`, `nl_plain_decimal_split_witness`,
   `de_negative_grouped_witness`, `esmx_two_groups_split_witness`.
-Plain integers and plain decimals (NumbersWithPlaceHolder, DoubleDecimalPointRegex: per-culture sign prefixes) are
-covered by kernel evaluation on bounded instances (`plain_and_decimal_bounded`) and by the correspondence
-(harness/lib/numextractcorr.py); the full `extract` adds the hypothesis `Quiet` (no negative term ends at the literal,
-no ambiguity-filter match meets it).
+Plain integers and plain decimals (NumbersWithPlaceHolder, DoubleDecimalPointRegex: per-culture sign prefixes):
+`RTV.Props.C03ExtractPlain` (universal, the cultures whose regex has the common form) and
+`RTV.Props.C03ExtractBounded` (kernel evaluation on bounded instances, all configurations); everything is also tied by
+the correspondence (harness/lib/numextractcorr.py).  The full `extract` adds the hypothesis `QuietAt` (no negative term
+ends at the literal, no ambiguity-filter match meets it); `grouped_literal_sweep` is the statement for the sweep alone.
 -/
 namespace RTV.Props.C03Extract
 open RTV.Py RTV.Re RTV.Span RTV.Num RTV.NumExtract RTV.Gen.NumRegex
